@@ -70,3 +70,10 @@ reg("C20", "exploration", "bounded-exhaustive enumeration of format specificatio
     "Python format() of the value in its own shape; every action sequence of length<=3 (4) over (input valuation, clock toggle mask) from every register state on 127 (739) generated If/Switch designs in pos/neg/async-reset domains: "
     "prints exactly at active edges where active, AssertionError exactly at the first active edge with a false active Assert/Assume.",
     "Trusted: vf/ref/c20_ref.py. Widths above 8 use corner values; comb-domain Print and the VCD formatting path (needs pyvcd) are not covered.")
+reg("C08", "model_checking", "stateless exploration of every resolution (deviation-bounded) of the iteration order of the engine's ready-process, active-trigger and commit sets, with differential and absolute oracles",
+    "The hash-ordered sets the Python simulator iterates over are replaced from the harness by choice sets; each of 403 (quick) scenarios -- two clocked domains with coinciding edges, comb fragment in a submodule, "
+    "the guide's sync/comb replacement processes, 1-2 testbenches running every script of length<=2 (3) over set/get/tick+sample/delay/posedge/negedge/changed -- is executed under every schedule with <=1 (2) deviations from "
+    "the default order: all observation logs and final signal values must be identical; in every execution testbench order, settled reads after writes, pre-edge samples vs post-edge registers, exact edge/delay times and "
+    "process-vs-circuit equality are checked.",
+    "Trusted: the ChoiceSet injection reaches PySimEngine._processes/_active_triggers and the state's pending set (a vacuity guard fails the run if no real choice points are seen); sets built as local variables "
+    "(timeline nearest_wakers) are not permuted. Odd clock periods are outside the alphabet.")
